@@ -171,6 +171,60 @@ func Purity(w *load.World, c *core.Collector) {
 									bad = append(bad, k)
 								}
 							}
+							// shape: the sign must come from comparisons, never from arithmetic on the
+							// scores (a difference of unsigned or wide integers wraps: not a total order)
+							var shape func(v ssa.Value, depth int) string
+							shape = func(v ssa.Value, depth int) string {
+								if depth > 6 {
+									return "value too deep to decide"
+								}
+								switch x := v.(type) {
+								case *ssa.Const:
+									return ""
+								case *ssa.Phi:
+									for _, e := range x.Edges {
+										if m := shape(e, depth+1); m != "" {
+											return m
+										}
+									}
+									return ""
+								case *ssa.Call:
+									if g := x.Call.StaticCallee(); g != nil {
+										n := g.String()
+										if strings.HasPrefix(n, "cmp.Compare") || strings.HasPrefix(n, "strings.Compare") || strings.HasPrefix(n, "bytes.Compare") {
+											return ""
+										}
+									}
+									return "result of a call other than cmp.Compare"
+								case *ssa.UnOp:
+									if x.Op == token.SUB {
+										return shape(x.X, depth+1)
+									}
+								case *ssa.Convert:
+									return "a converted arithmetic value (" + x.X.String() + "): differences of scores overflow, the order is not transitive"
+								case *ssa.BinOp:
+									return "arithmetic on the scores (" + x.String() + "): differences overflow, the order is not transitive"
+								}
+								return fmt.Sprintf("a value of kind %T", v)
+							}
+							if m := shape(r.Results[0], 0); m != "" {
+								bad = append(bad, "shape: "+m)
+							}
+						}
+						if ifi, ok := ii.(*ssa.If); ok {
+							bo, isCmp := ifi.Cond.(*ssa.BinOp)
+							okCond := false
+							if isCmp {
+								switch bo.Op {
+								case token.LSS, token.GTR, token.LEQ, token.GEQ, token.EQL, token.NEQ:
+									_, xa := bo.X.(*ssa.BinOp)
+									_, ya := bo.Y.(*ssa.BinOp)
+									okCond = !xa && !ya
+								}
+							}
+							if !okCond {
+								bad = append(bad, "shape: branch on something other than a plain comparison of the two operands' scores")
+							}
 						}
 					}
 				}
@@ -580,6 +634,31 @@ func Transfer(w *load.World, c *core.Collector) {
 				if !onlyViaAny(sumEq, rm.Block()) {
 					missing = append(missing, "checksum equality with the receiver")
 				}
+				// scope: a recursive removal may only hit the directory of the file that was sent;
+				// its ancestors may only be removed when empty (os.Remove)
+				if rm.Call.StaticCallee().String() == "os.RemoveAll" {
+					depths := dirDepths(rm.Call.Args[0], map[ssa.Value]bool{}, 0)
+					okScope := len(depths) > 0
+					for d := range depths {
+						if d != 1 {
+							okScope = false
+						}
+					}
+					if okScope {
+						c.Add("TRANSFER", "sender:removeall-scope", core.OK, w.At(rm), "", props...)
+					} else {
+						var ds []string
+						for d := range depths {
+							if d < 0 {
+								ds = append(ds, "unknown")
+							} else {
+								ds = append(ds, fmt.Sprintf("%d level(s) above the file", d))
+							}
+						}
+						sort.Strings(ds)
+						c.Add("TRANSFER", "sender:removeall-scope", core.Violation, w.At(rm), fmt.Sprintf("os.RemoveAll is applied to a directory that is not the sent shard's own directory (%s): shards that were not transferred are deleted with it", strings.Join(ds, ", ")), props...)
+					}
+				}
 				key := "sender:delete-after-verify:" + rm.Call.StaticCallee().Name()
 				if len(missing) > 0 {
 					c.Add("TRANSFER", key, core.Violation, w.At(rm), fmt.Sprintf("the source copy can be removed without %v", missing), props...)
@@ -627,6 +706,46 @@ func Transfer(w *load.World, c *core.Collector) {
 		} else {
 			c.Add("TRANSFER", "records:delete-after-verify", core.OK, w.At(write), "", props...)
 		}
+	}
+	// record receiver: an entry is counted as delivered only after its Put succeeded
+	nCount := 0
+	for _, g := range clusterFns(w) {
+		if !strings.HasPrefix(load.FnKey(g), "(*cluster.ClusterNode).RPCSetNodeKeyValue$") {
+			continue
+		}
+		var putOK []ssax.Edge
+		for _, b := range g.Blocks {
+			for _, in := range b.Instrs {
+				if call, ok := in.(*ssa.Call); ok && call.Call.IsInvoke() && call.Call.Method.Name() == "Put" && ssax.TypeName(call.Call.Value.Type()) == "diskstore.Bucket" {
+					_, isNil := ssax.NilTests(g, call)
+					putOK = append(putOK, isNil...)
+				}
+			}
+		}
+		for _, b := range g.Blocks {
+			for _, in := range b.Instrs {
+				st, ok := in.(*ssa.Store)
+				if !ok {
+					continue
+				}
+				if _, isFV := st.Addr.(*ssa.FreeVar); !isFV {
+					continue
+				}
+				bo, ok := st.Val.(*ssa.BinOp)
+				if !ok || bo.Op != token.ADD {
+					continue
+				}
+				nCount++
+				if onlyViaAny(putOK, b) {
+					c.Add("TRANSFER", "records:count-after-put", core.OK, w.At(in), "", props...)
+				} else {
+					c.Add("TRANSFER", "records:count-after-put", core.Violation, w.At(in), "the receiver counts an entry as delivered on a path on which it was not written: the sender compares this count with what it sent and then deletes its own copy", props...)
+				}
+			}
+		}
+	}
+	if nCount == 0 {
+		c.Add("TRANSFER", "anchor:records-count", core.Undecided, "", "the delivered-entries counter of RPCSetNodeKeyValue was not found", props...)
 	}
 	// receiver
 	r := findFn(w, "(*cluster.ClusterNode).RPCSendShard")
@@ -741,6 +860,91 @@ func Transfer(w *load.World, c *core.Collector) {
 	} else {
 		c.Add("TRANSFER", "startup-order", core.Violation, w.Position(mainFn.Pos()), "start-up does not run RPC serving, then synchronisation, then the HTTP API in that order", props...)
 	}
+}
+
+// dirDepths: how many filepath.Dir applications separate v from a parameter of the function
+// (-1: not derived from a parameter by Dir alone).
+func dirDepths(v ssa.Value, seen map[ssa.Value]bool, depth int) map[int]bool {
+	out := map[int]bool{}
+	if v == nil || seen[v] || depth > 12 {
+		return out
+	}
+	seen[v] = true
+	add := func(m map[int]bool, inc int) {
+		for d := range m {
+			if d < 0 {
+				out[-1] = true
+			} else {
+				out[d+inc] = true
+			}
+		}
+	}
+	switch x := v.(type) {
+	case *ssa.Parameter:
+		out[0] = true
+	case *ssa.Call:
+		if g := x.Call.StaticCallee(); g != nil && g.String() == "path/filepath.Dir" {
+			add(dirDepths(x.Call.Args[0], seen, depth+1), 1)
+		} else {
+			out[-1] = true
+		}
+	case *ssa.Phi:
+		for _, e := range x.Edges {
+			add(dirDepths(e, seen, depth+1), 0)
+		}
+	case *ssa.UnOp:
+		if x.Op != token.MUL {
+			out[-1] = true
+			break
+		}
+		// load from a local cell, array or slice element: everything ever stored there
+		var root ssa.Value = x.X
+		for {
+			switch a := root.(type) {
+			case *ssa.IndexAddr:
+				root = a.X
+				continue
+			case *ssa.Slice:
+				root = a.X
+				continue
+			case *ssa.FieldAddr:
+				root = a.X
+				continue
+			}
+			break
+		}
+		al, ok := root.(*ssa.Alloc)
+		if !ok {
+			out[-1] = true
+			break
+		}
+		n := 0
+		var visit func(addr ssa.Value)
+		visit = func(addr ssa.Value) {
+			for _, r := range *addr.Referrers() {
+				switch y := r.(type) {
+				case *ssa.Store:
+					if y.Addr == addr {
+						n++
+						add(dirDepths(y.Val, seen, depth+1), 0)
+					}
+				case *ssa.IndexAddr:
+					visit(y)
+				case *ssa.FieldAddr:
+					visit(y)
+				case *ssa.Slice:
+					visit(y)
+				}
+			}
+		}
+		visit(al)
+		if n == 0 {
+			out[-1] = true
+		}
+	default:
+		out[-1] = true
+	}
+	return out
 }
 
 // flagOrigins visits integer constants that can flow into v (through | and phi).
